@@ -62,8 +62,10 @@ func (p scriptElementParser) Parse(pi *parse.Input) (n Node, ok bool, err error)
 	var sb strings.Builder
 	var stringLiteralDelimiter jsQuote
 
+	vf := verifEnter()
 loop:
 	for {
+		verifIter(pi, "scriptElementParser", vf)
 		// Read and decide whether we're we've hit a:
 		//  - {{ - Start of a Go expression, read the contents with the `goCode` function.
 		//  - </script> - End of the script, break out of the loop.
